@@ -6,6 +6,8 @@ import r_guard
 import r_interp
 import r_typaren
 import r_replace
+import r_keep
+import r_layout
 
 EXPLANATION = (
     "Named mechanisms of the property, each decided on every path of every feature configuration: (R-PAREN d) the "
@@ -27,4 +29,5 @@ def run(ctx):
             r_guard.rule_guard(ctx, "C01"), r_replace.rule_strip_contract(ctx, "C01"), r_interp.rule_interp(ctx, "C01"), r_typaren.rule_typaren(ctx, "C01"),
             r_paren.rule_paren(ctx, "C01", parts=("oracle",), roles=("prefix",), all_kinds=True,
                                why="on a call / index prefix they are mandatory: `({..})[i]` becomes `{..}[i]`, "
-                                   "`(function() end)()` becomes `function() end()`, which does not parse")]
+                                   "`(function() end)()` becomes `function() end()`, which does not parse"),
+            r_keep.rule_getter_setter_fields(ctx, "C01"), r_layout.rule_comment_layout(ctx, "C01")]
